@@ -34,7 +34,11 @@ func runLiveSoak(cs CaseSpec) *CaseResult {
 		}
 		readerPause = 5 * time.Millisecond
 	}
-	ln, err := newLiveNet(cs.Seed*131+int64(cs.Index), n, tune)
+	var jit *jitter
+	if cs.I("jitter", 0) == 1 {
+		jit = newJitter(cs.Seed*977+int64(cs.Index), 6, 3*time.Millisecond)
+	}
+	ln, err := newLiveNetJ(cs.Seed*131+int64(cs.Index), n, tune, jit)
 	if err != nil {
 		res.inconclusive("cannot create live network: " + err.Error())
 		return res
@@ -148,6 +152,11 @@ func runLiveSoak(cs CaseSpec) *CaseResult {
 	close(stopReaders)
 	wg.Wait()
 	res.count("soak_runs", 1)
+	if jit != nil {
+		jit.mu.Lock()
+		res.count("soak_injected_delays_at_store_transport_and_application_calls", jit.Naps)
+		jit.mu.Unlock()
+	}
 	res.count("soak_concurrent_block_reads", atomic.LoadInt64(&reads))
 	res.count("soak_transactions_submitted", atomic.LoadInt64(&sentCount))
 	if v := readerViolation.Load(); v != nil && prop == "C02" {
